@@ -15,7 +15,7 @@
    (theorems.json). *)
 From Coq Require Import SpecFloat.
 Require Import Base Value Float PrintOptions ParseOptions Utf8 Reader Scan Num NumberOps Parser.
-Require Import RelFramework PositionProofs SpanProofs CrossProofs SourcesAgree.
+Require Import RelFramework PositionProofs SpanProofs CrossProofs SourcesAgree QuoteSpan.
 
 Theorem C11_spans_in_bounds_partial : forall ro alpha fast std_parse k inp d,
   datum_from_trait ro alpha fast std_parse k inp = POk d ->
@@ -127,3 +127,19 @@ Theorem C11_same_across_slice_and_stream : forall ro alpha fast std_parse (s : b
   end.
 Proof. exact slice_stream_agree_datum. Qed.
 Print Assumptions C11_same_across_slice_and_stream.
+
+(* For a quote shorthand the head's span covers just the shorthand characters:
+   whenever the datum parser finds, after trivia, one of ' ` , on the input and
+   returns a datum, that datum is Datum::quotation of what follows, and the span
+   of its head (the symbol quote / quasiquote / unquote / unquote-splicing)
+   runs from the position of the shorthand to the position right after its one
+   or two characters - ,@ is two - whatever is quoted, for every option set
+   and source (pos_from p t is the position reached from p over the text t). *)
+Theorem C11_quote_head : forall ro alpha fast std_parse f s b r1 dd s',
+  parse_whitespace f (rd s) = (Ok (Some b), r1) -> b = 39 \/ b = 96 \/ b = 44 ->
+  next_datum ro alpha fast std_parse (S f) s = (POk (Some dd), s') ->
+  exists name quoted,
+    dd = quotation_datum name quoted (mk_span (r_position r1) (pos_from (r_position r1) (qtext name))) /\
+    hd 0 (qtext name) = b.
+Proof. exact quote_head_span. Qed.
+Print Assumptions C11_quote_head.
